@@ -233,6 +233,17 @@ pub fn cases_for(prop: &str, tier: &str, seed: u64, shard: (usize, usize)) -> (V
                 cases.push(Case { id: format!("ok{}x{}", shard.0, i), family: "valid-by-construction".into(), schema: si_idx, op: "validate".into(),
                     doc: Some(doc.print()), extra: vec![all.clone()], note: String::new() });
             }
+            // the targeted families of the rule properties (their spec-valid members count here)
+            for fp in ["C05", "C06", "C07", "C08", "C10", "C11"] {
+                for mut c in exhaustive_family(fp, tier, &mut rng, shard, &pool) {
+                    if tier != "thorough" && !rng.pct(20) {
+                        continue;
+                    }
+                    c.id = format!("{}-{}", fp, c.id);
+                    c.extra = vec![all.clone()];
+                    cases.push(c);
+                }
+            }
         }
         "C02" => {
             let n = budget(tier, 1500, 40000) / shard.1;
@@ -251,7 +262,7 @@ pub fn cases_for(prop: &str, tier: &str, seed: u64, shard: (usize, usize)) -> (V
             let mut tmp: Vec<Case> = vec![];
             family_random_docs(&mut tmp, &pool, &mut rng, n / 3, "validate", &format!("rnd{}x", shard.0), false);
             // the targeted families of the rule properties, all rules switched on
-            for fp in ["C05", "C07", "C08", "C10", "C11"] {
+            for fp in ["C05", "C06", "C07", "C08", "C10", "C11"] {
                 for mut c in exhaustive_family(fp, tier, &mut rng, shard, &pool) {
                     if tier != "thorough" && !rng.pct(20) {
                         continue;
@@ -602,6 +613,12 @@ pub fn c03_cases(pool: &[SchemaInfo], rng: &mut Rng, tier: &str, shard: (usize, 
         let doc = cyclic_doc(k, edges, rng.below(5), rng.below(3), rng.below(3), rng.below(8) as u32).print();
         push(&mut cases, "fragment-graph-4", minimal, doc, all.to_vec(), &mut n);
     }
+    // cyclic fragments reached from mutually exclusive and plain contexts (synthetic schema: A / B objects)
+    let synth = pool.iter().position(|s| s.name == "synthetic").unwrap();
+    for d in crate::families::merge_cycle_cases(rng, budget(tier, 4000, 100000) / shard.1) {
+        let plan: Vec<&str> = if rng.pct(70) { all.to_vec() } else { vec!["OverlappingFieldsCanBeMerged"] };
+        push(&mut cases, "merge-cycles", synth, d.print(), plan, &mut n);
+    }
     // the known stack-overflow witness and relatives
     if shard.0 == 0 {
         for doc in [
@@ -786,6 +803,9 @@ pub fn exhaustive_family(prop: &str, tier: &str, rng: &mut Rng, shard: (usize, u
             for d in merge_cases(rng, budget(tier, 1500, 40000)) {
                 docs.push(("merge-structured".to_string(), d.print()));
             }
+            for d in merge_cycle_cases(rng, budget(tier, 1500, 40000)) {
+                docs.push(("merge-cycles".to_string(), d.print()));
+            }
         }
         "C10" => {
             for d in SYNTH_DIRECTIVES {
@@ -804,6 +824,19 @@ pub fn exhaustive_family(prop: &str, tier: &str, rng: &mut Rng, shard: (usize, u
         _ => {}
     }
     let mut out = vec![];
+    if prop == "C06" {
+        // a fragment on T inside a selection set of type P, for all pairs of composite types of every pool schema
+        let mut i = 0usize;
+        for (si_idx, si) in pool.iter().enumerate() {
+            for text in spread_pairs(si) {
+                i += 1;
+                if i % shard.1 != shard.0 {
+                    continue;
+                }
+                out.push(Case { id: format!("sp{}x{}", shard.0, i), family: "spread-pairs".into(), schema: si_idx, op: "validate".into(), doc: Some(text), extra: vec![], note: String::new() });
+            }
+        }
+    }
     for (i, (fam, text)) in docs.into_iter().enumerate() {
         if i % shard.1 != shard.0 {
             continue;
